@@ -834,10 +834,10 @@ Record printer := { p_pkg : string; p_type : string; p_method : string; p_recv :
 					unknown += c.unknown
 					continue
 				}
-				if fd.Recv != nil && fd.Name.Name == "Type" && len(fd.Recv.List[0].Names) == 1 && (d.short == "ir" || d.short == "constant") {
+				if fd.Recv != nil && (fd.Name.Name == "Type" || fd.Name.Name == "Sig") && len(fd.Recv.List[0].Names) == 1 && (d.short == "ir" || d.short == "constant") {
 					c.valueMode = true
 					typ := strings.TrimPrefix(c.src(fd.Recv.List[0].Type), "*")
-					items = append(items, item{d.short, d.short + "." + typ, "Type", fd.Recv.List[0].Names[0].Name, c.block(fd.Body.List)})
+					items = append(items, item{d.short, d.short + "." + typ, fd.Name.Name, fd.Recv.List[0].Names[0].Name, c.block(fd.Body.List)})
 					n++
 					unknown += c.unknown
 					continue
